@@ -199,7 +199,9 @@ def task_random(ctx, n, max_len, reduced):
         j = judge(h, r, canon)
         if j is not None:
             raise Violation(j[0], j[1], {"kind": "history", "events": h})
-    ctx.search("random", strat, fn, n)
+    # a history costs a fork: Hypothesis' shrinker is replaced by delta debugging on the event list
+    ctx.search("random", strat, fn, n, shrink=False,
+               post_shrink=lambda b, case: {"kind": "history", "events": shrink(case["events"], b, canon)})
 
 
 def task_closure(ctx, par, max_states, reduced):
